@@ -754,8 +754,10 @@ func (q *c18Q) ordered() bool { return strings.Contains(q.Tail, "ORDER BY") }
 
 func checkC18(c *vlib.Ctx) {
 	c.Rule("per worker: default.sensor and db2.sensor in hour-level files, default.daily with compacted day-level files (whole days, a day with a day file plus a late hour file, hour-only days); default.mx: ten consecutive days (26..17 days ago), one row per hour, each day hour-partitioned or compacted following the pattern 0001011100 (every combination for 2 and 3 consecutive days); every two-sided range over mx crossing 1..3 midnights for 5x5 start/end times-of-day (end earlier/equal/later, on and off hour boundaries) is enumerated (600 ranges dealt to the workers) plus single-sided, BETWEEN, NOW()-relative and '<offset literal>'::TIMESTAMP variants; rows exactly on hour boundaries (±1µs), in 2015/2019/2020-01/1999/1969, in 2040 and around the wall clock (main cluster: 13..9 days before today). Queries: WHERE trees (AND/OR/NOT, depth<=2) over time >/>=/</<= literal (7 literal formats incl. Z and +02:00), BETWEEN, NOW()/CURRENT_TIMESTAMP ± INTERVAL, typed literals, reversed operands, event_time / uptime predicates, other predicates; as single-table, aggregate, join, left join, IN-subquery (either side), derived table, UNION ALL and comment shapes; bare, \"default\".m and db2.m names, with and without x-arc-database. A query is non-trivial (counted) only if arc's log shows a pruned path list was used.")
+	c.Rule("family 'remote storage' (30 cases per worker in the quick tier): PartitionPruner.OptimizeTablePath over an s3:// table path with a fault-injecting wrapper around the node's LocalBackend as storage backend / DirectoryLister, fresh pruner per case; tables mx / daily / sensor / db2.sensor, two-sided literal ranges crossing 1-3 midnights; fault plans: none | ListDirectories of the day parent (hour partitions) once / while armed | of the month parent (day directories) once / while armed | both once | file LIST of a day-level path once; steps: Q1 with the fault armed, Q2 (another text), store recovers, Q3 (another text), Q1 again; the returned path list is mapped to the local tree and read by the reference DuckDB, rows must equal the unpruned read of the same WHERE; non-trivial = pruned step whose unpruned result has rows")
 	c.Assume("reference = same SQL text on a private DuckDB whose views read ALL files of each measurement")
 	c.Assume("pruned / not pruned is read from arc's own log events ('Partition pruning: Using …'); the pruner's counters are not exported through the handler")
+	c.Assume("remote family: observed at the pruner's exported API (the query endpoint runs on local storage); that arc turns DuckDB's 'No files found' for an unreadable path list into an empty result is read from the handler's code")
 	c.Assume("NOW()-relative predicates: every stored row is >= 6 h away from every now±interval boundary in the pool (months: >= 8 days), so the two engines' clocks cannot disagree on membership; day files are written with DuckDB COPY into the day directory, the layout arc's daily compaction uses")
 	if c.Replay != "" {
 		replayC18(c)
@@ -768,14 +770,14 @@ func checkC18(c *vlib.Ctx) {
 		wg.Add(1)
 		go func(w int) {
 			defer wg.Done()
-			c18Worker(c, w, workers, n, c.N(40, 2000))
+			c18Worker(c, w, workers, n, c.N(40, 2000), c.N(30, 1500))
 		}(w)
 	}
 	wg.Wait()
 	c.Floor(c.N(120, 8000))
 }
 
-func c18Worker(c *vlib.Ctx, w, workers, n, mxExtra int) {
+func c18Worker(c *vlib.Ctx, w, workers, n, mxExtra, remoteN int) {
 	e, d, ok := c18Setup(c, w)
 	if !ok {
 		return
@@ -858,6 +860,7 @@ func c18Worker(c *vlib.Ctx, w, workers, n, mxExtra int) {
 				"minimal_where_shape": mq.Where.shape(0), "missing_rows": c18RowInfo(d, mo.Ref.Rows), "extra_rows": c18RowInfo(d, mo.Arc.Rows)})
 		}
 	}
+	c18RemoteFamily(c, e, d, w, remoteN)
 }
 
 // c18ProvKey is a coarse class of the unshrunk query, used only to spread the shrinking
@@ -1114,8 +1117,9 @@ func c18Signatures(d *c18Data, q c18Q, o outcome) []string {
 
 func replayC18(c *vlib.Ctx) {
 	var d struct {
-		Worker  int  `json:"worker"`
-		Minimal c18Q `json:"minimal"`
+		Worker  int         `json:"worker"`
+		Minimal c18Q        `json:"minimal"`
+		Remote  *remoteCase `json:"remote_case"`
 	}
 	if err := vlib.LoadReplay(c.Replay, &d); err != nil {
 		c.Inconclusive("replay: " + err.Error())
@@ -1126,6 +1130,12 @@ func replayC18(c *vlib.Ctx) {
 		return
 	}
 	defer e.close()
+	if d.Remote != nil {
+		replayC18Remote(c, e, data, *d.Remote)
+		c.Nontrivial("replay-a")
+		c.Nontrivial("replay-b")
+		return
+	}
 	q := d.Minimal
 	q.render() // literals relative to the wall clock are re-rendered for the new T0 only if they were generated from it; stored instants are absolute
 	o := e.run(q.SQL, q.Hdr, q.ordered(), false)
